@@ -22,7 +22,7 @@ EXPLANATION = (
     " Later additions: the link frame is written unfiltered; the trim keeps pairs together (side complement on an abstract grid, no time cut on the device side); no id truthiness tests in the side predicates."
 )
 TM = "hta.common.trace"
-ES, CS, OTHER = 1001, 1002, 5
+ES, CS, OTHER = 0, 1002, 5          # (Event Sync is given id 0: which symbol gets 0 is arbitrary, and tests like `if sym_id` / `> 0` must not lose it)
 
 
 def _side_leaf(DF, vals):
